@@ -2,7 +2,7 @@
 CONSTANTS NT = 1
  Kinds1 = {"tcp-ip", "tcp-domain", "forward", "udp", "icmp", "shell", "shell-tty", "file-upload", "file-download"}
  Kinds2 = {"tcp-ip"}
- RIDs = {1} MaxData = 1 Classes = {} Adversary = FALSE EphPool = {} Dev = {} EmitVec = FALSE
+ RIDs = {1} MaxData = 1 Classes = {} Adversary = FALSE EphPool = {} Lifecycle = FALSE Dev = {} EmitVec = FALSE
 INIT Init
 NEXT Next
 INVARIANTS TypeOK KeysAgree DistinctInputsDistinctKeys DegenerateRefused TransitSeesOnlyCiphertext TransitNeverHoldsKey PayloadIntact
